@@ -62,7 +62,8 @@ def build(env, per_cell, dense_share):
                                 s.call("open", ctx="R", api="alloc", ct="00" * 20, aad="-")
                             s.call("open", ctx="R", api="alloc", ct="$%s.full" % name, aad="-")
                         else:
-                            s.call("open", ctx="R", api=api, ct="00" * 9, tag="-" if api == "inplace" else None, aad="-")
+                            s.call("open", ctx="R", api=api, ct=rnd.choice(["00" * 9, "-", "00"]), tag="-" if api == "inplace" else None, aad="-")
+                            s.call("seal", ctx="S", api=api, pt="-", aad="-", out="empty%d" % nm)
                 # some sessions run both contexts to exhaustion and export again: same arguments, same values
                 if aead != 0xFFFF and rnd.random() < 0.35:
                     first = Ls[:3]
@@ -127,7 +128,7 @@ def monitor(sess, extra):
                 last[key] = (got, name, op.args.get("hist"))
             cls = "over" if L > lim else "at_limit" if L >= lim - 1 else gen.lenclass(L)
             h = op.args.get("hist", "0")
-            r.distinct.add((sess.ids, mode, name, cls, h if h == "exhausted" else min(int(h), 3)))
+            r.distinct.add((sess.ids, mode, name, cls, h if not h.isdigit() else min(int(h), 3)))
             if h == "exhausted":
                 r.counts["exports_on_exhausted_contexts"] += 1
             if abs(L - lim) <= 40:
@@ -155,6 +156,24 @@ def monitor(sess, extra):
 MONITORS = {"export": monitor}
 
 
+def reject_run(env, n):
+    """tens of thousands of rejected deliveries on one receiver must not change what it exports"""
+    g = gen.G(env.rnd)
+    cw = cl.CaseW()
+    aead = gen.SEAL_AEADS[env.seed % 3]
+    s = cw.session(0x0020, gen.KDFS[env.seed % 3], aead, sid="rr")
+    gen.add_pair(s, g, 0x0020, 0)
+    for L in (16, 32):
+        s.call("export", ctx="S", exctx="6578", len=L, hist=0)
+        s.call("export", ctx="R", exctx="6578", len=L, hist=0)
+    for k in range(n):
+        s.call("open", ctx="R", api="alloc" if k & 1 else "inplace", ct="%032x" % k, tag=None if k & 1 else "00" * 16, aad="-")
+    for L in (16, 32):
+        s.call("export", ctx="R", exctx="6578", len=L, hist="after_rejects")
+        s.call("export", ctx="S", exctx="6578", len=L, hist="after_rejects")
+    return cw
+
+
 def dense_lengths(env):
     """thorough: every L in 0..=16400 for one suite per KDF, and 65500..65600"""
     g = gen.G(env.rnd)
@@ -173,6 +192,9 @@ def run(env):
     res = env.drive("export", cw.text())
     env.require_complete(res, "export")
     mr = env.pmap(monitor, res.sessions, workload="export")
+    res = env.drive("rejects", reject_run(env, env.pick(66000, 140000)).text())
+    env.require_complete(res, "rejects")
+    env.pmap(monitor, res.sessions, workload="export")
     if not env.quick():
         res = env.drive("dense", dense_lengths(env).text())
         env.require_complete(res, "dense")
